@@ -88,6 +88,19 @@ def main():
             lines += edits + ["SOLVE " + cfg["entry"], "ACCESS", "GETBASIS", "DUMP"]
             cases.append((cid, "\n".join(lines) + "\n"))
             meta[cid] = (dict(lp, name=lp["name"] + "+edits", edits=edits), cfg)
+    # the same on every LP of the stream with at least 4 rows (the simplex multiplies by the row-wise copy only when its work
+    # vector is sparse relative to the number of rows), under both direct entry points
+    for li, lp in enumerate(lps):
+        ents = [(i_, j_, v_) for i_, r_ in enumerate(lp["rows"]) for (j_, v_) in r_[4]]
+        if len(lp["rows"]) < 4 or not ents:
+            continue
+        for entry in ("PRIMAL", "DUAL"):
+            cid = "rb%d.%s" % (li, entry[0])
+            f_ = "rb_%d_%s.mps" % (li, entry[0])
+            edits = ["CHG coef %d %d %s" % (i_, j_, qs(-v_ * ck.rng.choice([1, 2, 3]) + ck.rng.choice([0, 1]))) for (i_, j_, v_) in ck.rng.sample(ents, min(len(ents), ck.rng.randint(1, 3)))]
+            lines = ["CASE %s" % cid, lp_block(lp), "WRITEPROB %s MPS" % f_, "READPROB %s MPS" % f_, "PARAM 7 0"] + edits + ["SOLVE " + entry, "ACCESS", "GETBASIS", "DUMP"]
+            cases.append((cid, "\n".join(lines) + "\n"))
+            meta[cid] = (dict(lp, name=lp["name"] + "+readback-edits", edits=edits), dict(entry=entry, warm="none"))
     import tempfile as _tf, shutil as _sh
     scratch_ = _tf.mkdtemp(prefix="qsx_c01_", dir="/var/tmp")
     try:
